@@ -442,7 +442,7 @@ def session(rng, k, kind, W, H, bypp, pref=None, nops=10):
     for _ in range(nops):
         r = rng.random()
         if r < 0.22:
-            L.append("fill %d %d %d %d %d %d" % (rand_rect(rng, W, H) + (rng.randint(0, 255), rng.randint(0, 3))))
+            L.append("fill %d %d %d %d %d %d" % (rand_rect(rng, W, H) + (rng.randint(0, 255), rng.randint(0, 5))))
         elif r < 0.30:
             L.append("mark %d %d %d %d" % rand_rect(rng, W, H))
         elif r < 0.50:
@@ -494,7 +494,7 @@ def scaled_case(rng, k):
          "fur 0 0 0 %d %d" % (W, H), "setscale %d" % rng.choice([2, 2, 3, 4])]
     for _ in range(6):
         if rng.random() < 0.5:
-            L.append("fill %d %d %d %d %d %d" % (rand_rect(rng, W, H) + (rng.randint(0, 255), rng.randint(0, 3))))
+            L.append("fill %d %d %d %d %d %d" % (rand_rect(rng, W, H) + (rng.randint(0, 255), rng.randint(0, 5))))
         else:
             x, y, w, h = rand_rect(rng, max(1, W // 2), max(1, H // 2))
             L.append("fur %d %d %d %d %d" % (rng.randint(0, 1), x, y, w, h))
@@ -546,27 +546,32 @@ BOUNDARY = {
 }
 
 
-def boundary_case(k, enc, W, H, lastrect, bypp=1):
-    """one full update of a W x H screen: the case-split boundaries of the counting theorems"""
+def boundary_case(k, enc, W, H, lastrect, bypp=1, content=(3, 0)):
+    """full updates of a W x H screen: the case-split boundaries of the counting theorems.
+    `content`: fill modes of the two updates (the Tight splitter is data dependent)"""
     encs = [E[enc]] + ([E["LastRect"]] if lastrect else [])
     return ["case %d boundary" % k, "screen %d %d %d" % (W, H, bypp), "connect 8 1 1 good=1",
-            "setenc " + " ".join(map(str, encs)), "fill 0 0 %d %d 3 %d" % (W, H, 1 if enc.startswith("Tight") else 3),
-            "fur 0 0 0 %d %d" % (W, H), "fill 0 0 %d %d 77 0" % (W, H), "fur 1 0 0 %d %d" % (W, H)]
+            "setenc " + " ".join(map(str, encs)), "fill 0 0 %d %d 3 %d" % (W, H, content[0]),
+            "fur 0 0 0 %d %d" % (W, H), "fill 0 0 %d %d 77 %d" % (W, H, content[1]), "fur 1 0 0 %d %d" % (W, H)]
 
 
-def capdrop_case(rng, k, X):
-    """capability X is enabled by one SetEncodings and dropped by the next one; then the event that
-    would use X happens"""
+def capdrop_case(rng, k, X, event_first):
+    """capability X is enabled by one SetEncodings and dropped by the next one.  The events that
+    would use X happen after the drop -- or (event_first) while X is still enabled but no request
+    is outstanding, so that the server only remembers them (pending flags) across the drop"""
     W, H = 80, 70
     base = [E["Tight"]]
     need = {"PointerPos": [E["RichCursor"]], "XCursor": [], "RichCursor": []}.get(X, [])
-    L = ["case %d capdrop-%s" % (k, X), "screen %d %d 4 ledhook=1 xvp=1 utf8=1" % (W, H), "connect 8 1 1 good=1", "helper",
-         "setenc " + " ".join(map(str, base + need + [E[X]])), "fur 0 0 0 %d %d" % (W, H)]
-    if X == "CopyRect" and rng.random() < 0.5:
-        L += ["copy 10 10 30 30 3 2"]          # scheduled while CopyRect was enabled
+    events = ["fill 0 0 %d %d 5 3" % (W, H), "setcursor 3", "ptr 7 9", "led 5", "copy 5 5 20 20 1 1", "cuttextutf8 4",
+              "newfb 84 70"]
+    L = ["case %d capdrop-%s%s" % (k, X, "-pending" if event_first else ""), "screen %d %d 4 ledhook=1 xvp=1 utf8=1" % (W, H),
+         "connect 8 1 1 good=1", "helper", "setenc " + " ".join(map(str, base + need + [E[X]])), "fur 0 0 0 %d %d" % (W, H)]
+    if event_first:
+        L += events
     L += ["setenc " + " ".join(map(str, base + need))]
-    L += ["fill 0 0 %d %d 5 3" % (W, H), "setcursor 3", "ptr 7 9", "led 5", "copy 5 5 20 20 1 1", "cuttextutf8 4",
-          "newfb 84 70", "fur 1 0 0 %d %d" % (W, H), "fur 0 0 0 %d %d" % (W, H)]
+    if not event_first:
+        L += events
+    L += ["fur 1 0 0 %d %d" % (W, H), "fur 0 0 0 %d %d" % (W, H)]
     return L
 
 
@@ -623,10 +628,13 @@ def gen_cases(ctx):
         for (W, H) in sizes:
             add(boundary_case(k, enc, W, H, False))
             if enc.startswith("Tight"):
-                add(boundary_case(k, enc, W, H, True))
+                # the splitter of the LastRect path depends on the pixels: uniform, busy and mixed content
+                for content in ((1, 0), (4, 5), (3, 4)):
+                    add(boundary_case(k, enc, W, H, True, content=content))
     for X in ("LastRect", "CopyRect", "XCursor", "RichCursor", "PointerPos", "KeyboardLedState", "NewFBSize",
               "ExtDesktopSize", "SupportedMessages", "SupportedEncodings", "ServerIdentity", "Xvp"):
-        add(capdrop_case(rng, k, X))
+        add(capdrop_case(rng, k, X, False))
+        add(capdrop_case(rng, k, X, True))
     # boundary geometries x every pixel encoding
     nrep = 1 if ctx.quick() else 6
     for _ in range(nrep):
